@@ -196,7 +196,8 @@ func runNego(planPath, outPath string, seed int64) {
 	for i := 0; i < p.Random; i++ {
 		all := r.Intn(2) == 0
 		lim := 2
-		if all {
+		if all || r.Intn(3) == 0 {
+			// also while only the built-in writers are registered: Produces names types without a writer
 			lim = 4
 		}
 		perm := r.Perm(lim)
@@ -204,6 +205,16 @@ func runNego(planPath, outPath string, seed int64) {
 		prod := []string{}
 		for _, k := range perm[:n] {
 			prod = append(prod, pool[k])
+		}
+		if !all {
+			// at least one entry has a writer while only the built-in ones are registered
+			hasWriter := false
+			for _, p := range prod {
+				hasWriter = hasWriter || p == restful.MIME_JSON || p == restful.MIME_XML
+			}
+			if !hasWriter {
+				prod = append(prod, pool[r.Intn(2)])
+			}
 		}
 		c := negoCase{Produces: prod, Def: pick(r, []string{"", "", "", restful.MIME_JSON, restful.MIME_XML}), Compact: r.Intn(3) == 0, PreCT: pick(r, []string{"", "", "", "text/csv", "text/plain; charset=utf-8"})}
 		if all {
